@@ -947,6 +947,78 @@ func genNearMiss(a *Args, rng *Rng) []caseSpec {
 	return out
 }
 
+// ---------- the place of the source (6dc7abe) ----------
+
+// genPlaces: sources inside the plugin root - the plugin's own directory (directly, with a trailing separator,
+// through a symbolic link), its own executable, another file of it, the directory / a file of ANOTHER plugin
+// holding an executable named for foo, a link into another plugin's directory, links to directories without
+// trailing separator, missing directories and files - with and without overwrite, alone and inside histories
+// with ordinary installations before and after. Not generated (known to violate the property on the
+// unchanged tree, see docs/audit/C20.md): a directory of the root whose only candidate is not executable,
+// and a link named for a plugin into that plugin's own directory.
+func genPlaces(a *Args, rng *Rng) []caseSpec {
+	var out []caseSpec
+	bin := func(n string) string { return "notation-" + n }
+	root := func(b *hb, fooVer string) {
+		b.h.At = true
+		b.init("foo", fileSpec{bin("foo"), 0o755, b.ok("foo", fooVer)}, fileSpec{"lib.so", 0o644, b.data("lib", 1)})
+		b.init("bar", fileSpec{bin("bar"), 0o755, b.ok("bar", "0.5.0")}, fileSpec{bin("foo"), 0o755, b.okSalt("foo", "2.0.0", 2)})
+		b.init("baz", fileSpec{"data", 0o644, b.data("d", 1)}, fileSpec{bin("foo"), 0o755, b.okSalt("foo", "3.0.0", 3)})
+		b.init("qux", fileSpec{bin("qux"), 0o755, b.ok("qux", "latest")})
+		b.init("quux", fileSpec{bin("quux"), 0o755, b.malformed("nodesc", "quux", "1.0.0")}, fileSpec{"x.so", 0o644, b.data("x", 1)})
+	}
+	inDir := func(k string, form int) srcSpec {
+		return srcSpec{Kind: "indir", Name: k, Slash: form == 1, ViaLink: form == 2}
+	}
+	inFile := func(k, f string) srcSpec { return srcSpec{Kind: "infile", Name: k, File: fileSpec{Name: f}} }
+	singles := []srcSpec{
+		inDir("foo", 0), inDir("foo", 1), inDir("foo", 2), inFile("foo", bin("foo")), inFile("foo", "lib.so"), inFile("foo", "nope"),
+		inDir("nope", 0), inDir("baz", 0), inDir("baz", 1), inDir("baz", 2), inFile("baz", bin("foo")), inFile("bar", bin("foo")),
+		inDir("bar", 0), inFile("bar", bin("bar")), inDir("qux", 0), inDir("qux", 2), inFile("qux", bin("qux")), inDir("quux", 0), inFile("quux", bin("quux")),
+		{Kind: "linkdir", Name: "foo"}, {Kind: "linkdir", Name: "baz"}, {Kind: "linkdir"},
+		{Kind: "linkfile", Link: bin("foo"), Name: "baz", File: fileSpec{Name: bin("foo")}},
+		{Kind: "linkfile", Link: bin("foo"), Name: "bar", File: fileSpec{Name: bin("foo")}},
+		{Kind: "linkfile", Link: bin("bar"), Name: "bar", File: fileSpec{Name: "nope"}},
+		{Kind: "linkfile", Link: "lib.so", Name: "foo", File: fileSpec{Name: "lib.so"}},
+	}
+	for _, fooVer := range []string{"1.0.0", "5.0.0"} { // foo below / above what bar and baz hold
+		for _, s := range singles {
+			for _, ow := range []bool{false, true} {
+				b := newHB("places")
+				root(b, fooVer)
+				b.install(s, ow)
+				out = append(out, b.done())
+			}
+		}
+	}
+	// inside histories: ordinary installations before and after, the own directory again after an upgrade
+	// from another plugin's directory, the other directory removed
+	for _, ow := range []bool{false, true} {
+		for form := 0; form < 3; form++ {
+			b := newHB("places")
+			root(b, "1.0.0")
+			b.install(fileSrc(bin("foo"), 0o755, b.okSalt("foo", "1.5.0", 5)), false) // ordinary upgrade
+			b.install(inDir("foo", form), ow)                                         // own directory: equal version / installed plugin itself
+			b.install(inFile("foo", bin("foo")), ow)
+			b.install(inDir("baz", form), ow) // 3.0.0 from another plugin's directory
+			b.install(inDir("foo", (form+1)%3), true)
+			b.install(fileSrc(bin("foo"), 0o755, b.okSalt("foo", "3.0.1", 6)), false) // judged against what is really there
+			out = append(out, b.done())
+		}
+		b := newHB("places")
+		root(b, "1.0.0")
+		b.install(inFile("bar", bin("foo")), ow) // foo 2.0.0 from a file of bar
+		b.uninstall("bar")
+		b.install(inFile("bar", bin("foo")), ow) // gone
+		b.install(inDir("bar", 0), true)
+		b.install(inDir("foo", 0), ow)
+		b.uninstall("foo")
+		b.install(inDir("foo", 0), true)
+		out = append(out, b.done())
+	}
+	return out
+}
+
 // ---------- corpus: regression inputs (JSON files holding a caseSpec) ----------
 
 func genCorpus(a *Args) []caseSpec {
@@ -988,6 +1060,7 @@ func generate(a *Args) []caseSpec {
 	}
 	out = append(out, genRandom(a, rng.Fork(4), nrand)...)
 	out = append(out, genNearMiss(a, rng.Fork(9))...)
+	out = append(out, genPlaces(a, rng.Fork(10))...)
 	out = append(out, genCompare(a, rng.Fork(5))...)
 	return out
 }
